@@ -39,6 +39,12 @@ class PureEval:
         if not cands:
             raise AnalysisBroken("predicate %s not found in %s" % (name, self.files))
         f = cands[0]
+        wc = wrapped_compare(f) if name not in PRIMS else None
+        if wc is not None:
+            # the instant comparison written out in place (copies wrapped, packed words compared): in the integer model that is the
+            # comparison of the two sources
+            self.bodies[name] = (f, {"k": "bin", "op": wc[0], "l": wc[1], "r": wc[2]})
+            return self.bodies[name]
         rets = []
         temps = {}
         for b, i, x, line in f.cfg.all_elems():
@@ -135,3 +141,52 @@ def order_type(vals):
     """Canonical order type of a tuple of numbers: ranks with ties."""
     s = sorted(set(vals))
     return tuple(s.index(v) for v in vals)
+
+
+def wrapped_compare(f):
+    """Is f the wrapped comparison of two instants written out — copies of two instants (parameters, or locals initialised once), each
+    with its hour and millisecond fields stepped up by one so that the all-day / all-second markers wrap to the front, and one return of
+    `a.u OP b.u`?  Returns (OP, source of a, source of b) with OP one of < <= > >= (a leading `!` folded in), else None."""
+    if not f.cfg:
+        return None
+    inits, incs, rets = {}, {}, []
+    for b, i, x, line in f.cfg.all_elems():
+        if isinstance(x, dict) and x.get("k") == "ret":
+            rets.append(f.cfg.resolve(x["e"]) if x.get("e") is not None else None)
+            continue
+        for l, kind, n in writes(x):
+            t = lv(l)
+            if kind == "decl":
+                if n.get("init") is None or t in inits:
+                    return None
+                inits[t] = f.cfg.resolve(n["init"])
+            elif kind == "incdec" and "++" in n.get("op", "") and "." in t:
+                incs.setdefault(t.split(".", 1)[0], []).append(t.split(".", 1)[1])
+            elif kind == "compound" and n.get("op") == "+=" and int_value(strip_casts(n["r"])) == 1 and "." in t:
+                incs.setdefault(t.split(".", 1)[0], []).append(t.split(".", 1)[1])
+            else:
+                return None
+    if len(rets) != 1 or rets[0] is None:
+        return None
+    c = strip(rets[0])
+    neg = False
+    while isinstance(c, dict) and c.get("k") == "un" and c["op"] == "!":
+        neg = not neg
+        c = strip(c["e"])
+    if not (isinstance(c, dict) and c.get("k") == "bin" and c["op"] in ("<", "<=", ">", ">=")):
+        return None
+    sides = []
+    for sd in (c["l"], c["r"]):
+        sd = strip_casts(sd)
+        if not (sd.get("k") == "mem" and sd.get("f") == "u" and strip_casts(sd["b"]).get("k") == "ref"):
+            return None
+        v = strip_casts(sd["b"])["n"]
+        if sorted(incs.get(v, [])) != ["H", "ms"]:
+            return None
+        sides.append(inits.get(v, strip_casts(sd["b"])))
+    if set(incs) != {strip_casts(strip_casts(c["l"])["b"])["n"], strip_casts(strip_casts(c["r"])["b"])["n"]}:
+        return None
+    op = c["op"]
+    if neg:
+        op = {"<": ">=", ">": "<=", "<=": ">", ">=": "<"}[op]
+    return op, sides[0], sides[1]
